@@ -34,7 +34,11 @@ def run_check(pid, root):
 def apply(root, file, old, new):
     p = os.path.join(root, file)
     s = open(p).read()
-    if isinstance(old, tuple) and old[0] == "nth":
+    if isinstance(old, tuple) and old[0] == "all":
+        if old[1] not in s:
+            return None
+        s2 = s.replace(old[1], new)
+    elif isinstance(old, tuple) and old[0] == "nth":
         _, n, text = old
         idx = -1
         for _ in range(n + 1):
